@@ -179,7 +179,7 @@ fn swap_alphabet(m: &VModel, w: &mut VWorld, s: &VSt, with_blk: bool) -> Vec<VAc
     }
     if with_blk {
         for sx in &m.secs {
-            acts.push(VAct::Blk { secs: *sx });
+            acts.push(VAct::Blk { secs: *sx, ms: 0 });
         }
     }
     acts.dedup();
@@ -470,8 +470,11 @@ fn alpha_c18(m: &VModel, w: &mut VWorld, s: &VSt) -> Vec<VAct> {
     }
     acts.push(VAct::Settle);
     for sx in &m.secs {
-        acts.push(VAct::Blk { secs: *sx });
+        acts.push(VAct::Blk { secs: *sx, ms: 0 });
     }
+    // blocks that are not a whole number of seconds apart
+    acts.push(VAct::Blk { secs: 5, ms: 600 });
+    acts.push(VAct::Blk { secs: 0, ms: 700 });
     acts
 }
 
@@ -605,7 +608,7 @@ fn alpha_c18_feed(m: &VModel, w: &mut VWorld, s: &VSt) -> Vec<VAct> {
         acts.push(VAct::AppendMulti { prices: vec![m.amounts[1]], backs: vec![0] });
     }
     for sx in &m.secs {
-        acts.push(VAct::Blk { secs: *sx });
+        acts.push(VAct::Blk { secs: *sx, ms: 0 });
     }
     acts
 }
@@ -734,7 +737,7 @@ pub fn run_c18(tier: Tier) -> i32 {
     let mut busy = vec![];
     for i in 0..120 {
         busy.push(VAct::SwapIn { add: i % 2 == 0, quote: 7 * dd + 3, limit: 0, over: true });
-        busy.push(VAct::Blk { secs: 10 });
+        busy.push(VAct::Blk { secs: 10, ms: 0 });
     }
     run.explore("vAMM TWAP after 120 busy blocks", vparams(&m), &m, &[busy], &Limits::new(tier.pick(2, 3)));
     let mut p = VModel {
